@@ -34,6 +34,7 @@ func init() {
 			"p3server": {N: func(t string) int { return tierN(t, 3, 160) }, Case: c15Case("p3"), Race: true, Env: raceEnv()},
 			"p4create": {N: func(t string) int { return tierN(t, 3, 160) }, Case: c15Case("p4"), Race: true, Env: raceEnv()},
 			"p5faulty": {N: func(t string) int { return tierN(t, 4, 240) }, Case: c15Case("p5"), Race: true, Env: raceEnv()},
+			"p6twodbs": {N: func(t string) int { return tierN(t, 3, 160) }, Case: c15Case("p6"), Race: true, Env: raceEnv()},
 		},
 	})
 }
@@ -174,6 +175,29 @@ func c15Case(prog string) func(string, int64, int, string) rt.CaseResult {
 			logs = c15Steady(&c, seed, idx, scratch, m, tierN(tier, 500, 900), true)
 		case "p4":
 			logs = c15Create(&c, seed, idx, scratch)
+		case "p6":
+			// two (three) databases in one process, each used by its own goroutines at the same time:
+			// whatever fs_db keeps per process (sequence counter, pools, caches) is shared by them
+			ndb := 2 + idx%2
+			parts := make([][][]tlog, ndb)
+			subs := make([]rt.CaseResult, ndb)
+			var wg sync.WaitGroup
+			for d := 0; d < ndb; d++ {
+				wg.Add(1)
+				go func(d int) {
+					defer wg.Done()
+					m := dbx.Inline
+					if d == 2 {
+						m = dbx.Grpc
+					}
+					parts[d] = c15Steady(&subs[d], seed, idx*10+d, filepath.Join(scratch, fmt.Sprintf("db%d", d)), m, tierN(tier, 350, 700), false)
+				}(d)
+			}
+			wg.Wait()
+			for d := 0; d < ndb; d++ {
+				c.Violations = append(c.Violations, subs[d].Violations...)
+				logs = append(logs, parts[d]...)
+			}
 		}
 		for _, l := range logs {
 			c.Evals += int64(len(l))
@@ -486,5 +510,5 @@ func c15Create(c *rt.CaseResult, seed int64, idx int, scratch string) [][]tlog {
 }
 
 func init() {
-	Registry["C15"].Rule += " P5: the steady workload (inline and through the server) with faults injected by stateless fault functions - a few percent of the content writes fail (no space, fully or after half the chunk; EIO), of the metadata writes and file creations fail, one root reports less free space than the other, and one call in eight carries a context that expires within 20-600 us - so that the error and clean-up paths run concurrently under the race detector too."
+	Registry["C15"].Rule += " P6: two or three databases in one process (the third behind the server), each driven by its own goroutines at the same time. P5: the steady workload (inline and through the server) with faults injected by stateless fault functions - a few percent of the content writes fail (no space, fully or after half the chunk; EIO), of the metadata writes and file creations fail, one root reports less free space than the other, and one call in eight carries a context that expires within 20-600 us - so that the error and clean-up paths run concurrently under the race detector too."
 }
